@@ -428,3 +428,83 @@ func VerifC18SlowClose() {
 	}
 	verifReach("done")
 }
+
+// verifFailCloseConn is an inner connection whose Close reports an error (the
+// connection is gone all the same).
+type verifFailCloseConn struct {
+	net.Conn
+	fail   bool
+	closes int
+}
+
+func (c *verifFailCloseConn) Close() error {
+	c.closes++
+	if c.closes == 1 {
+		verifOpen.Add(-1)
+	}
+	if c.fail {
+		return errors.New("close failed: connection reset by peer")
+	}
+	return nil
+}
+func (c *verifFailCloseConn) RemoteAddr() net.Addr { return nil }
+
+type verifFailCloseLsnr struct{ fail []bool }
+
+func (l *verifFailCloseLsnr) Accept() (net.Conn, error) {
+	verifOpen.Add(1)
+	f := false
+	if len(l.fail) > 0 {
+		f, l.fail = l.fail[0], l.fail[1:]
+	}
+	return &verifFailCloseConn{fail: f}, nil
+}
+func (l *verifFailCloseLsnr) Close() error   { return nil }
+func (l *verifFailCloseLsnr) Addr() net.Addr { return nil }
+
+// VerifC18CloseError: a connection gives its slot back exactly once when it is closed,
+// also when the underlying close reports an error (reset by peer, failed TLS
+// shutdown) and however often Close is called; afterwards the limiter accepts again.
+//
+//verif:harness name=H18g-close-error tier=quick,thorough bounds="stop in 1..2, resume in 0..stop; stop connections whose underlying Close succeeds or reports an error (independently); each is closed once or twice; then stop more accepts" reach=done,close-failed maxpaths=20000
+func VerifC18CloseError() {
+	stop := uint64(1 + verifChoice(2))
+	resume := uint64(verifChoice(int(stop) + 1))
+	verifStopAt = stop
+	verifPending.Store(0)
+	verifOpen.Store(0)
+	verifFailNext.Store(false)
+	lim, err := New(&Config{Logger: slogutil.NewDiscardLogger(), Stop: stop, Resume: resume})
+	verifAssume(err == nil)
+	si := &dnsserver.ServerInfo{Name: "s", Addr: "a", Proto: dnsserver.ProtoDoT}
+	inner := &verifFailCloseLsnr{}
+	for n := 0; n < int(stop); n++ {
+		inner.fail = append(inner.fail, verifChoice(2) == 1)
+	}
+	fails := append([]bool{}, inner.fail...)
+	l := lim.Limit(inner, si)
+	var conns []net.Conn
+	for n := 0; n < int(stop); n++ {
+		c, aerr := l.Accept()
+		verifAssert("accept-ok", aerr == nil)
+		conns = append(conns, c)
+	}
+	verifAssert("stopped-at-stop", !lim.counter.isAccepting && lim.counter.current == stop)
+	for n, c := range conns {
+		cerr := c.Close()
+		verifAssert("close-error-is-reported", (cerr != nil) == fails[n])
+		if fails[n] {
+			verifReach("close-failed")
+		}
+		if verifChoice(2) == 1 {
+			_ = c.Close()
+		}
+		verifAssert("slot-given-back-exactly-once", lim.counter.current == stop-uint64(n+1))
+	}
+	verifAssert("limiter-accepts-again-after-all-connections-are-closed", lim.counter.isAccepting && lim.counter.current == 0)
+	for n := 0; n < int(stop); n++ {
+		_, aerr := l.Accept()
+		verifAssert("accept-after-release-ok", aerr == nil)
+	}
+	verifReach("done")
+}
